@@ -4,7 +4,7 @@
     [WFx] is [WF] with the two places made explicit where headers.go is weaker
     (duplicate pseudo-header after an EMPTY first value; EMPTY Content-Length). *)
 From Coq Require Import List ZArith Bool String.
-From V Require Import Gen.Params Lib.Hex H3Headers.Model H3Headers.Spec H3Headers.Proofs H3Headers.ProofsParse H3Headers.ProofsMain.
+From V Require Import Gen.Params Lib.Hex H3Headers.Model H3Headers.Spec H3Headers.Proofs H3Headers.ProofsParse H3Headers.ProofsMain H3Headers.ProofsComplete.
 Import ListNotations.
 Open Scope Z_scope.
 
@@ -51,6 +51,28 @@ Theorem C19_reject_complete_rfc : forall isReq lim fs te,
   exists e, parseHeaders isReq lim fs te = inl e.
 Proof. exact parseHeaders_reject_rfc. Qed.
 Print Assumptions C19_reject_complete_rfc.
+
+(** (a)+(b) sharpened: acceptance is EXACTLY [WFx] — nothing else is accepted and nothing that
+    satisfies it is refused; in particular every section the RFC calls well-formed is accepted
+    (when its Content-Length fits 63 bits), with the obvious header. *)
+Theorem C19_accept_iff : forall isReq lim fs,
+  0 <= lim -> ((exists h, parseHeaders isReq lim fs false = inr h) <-> WFx isReq lim fs).
+Proof. exact parseHeaders_iff. Qed.
+Print Assumptions C19_accept_iff.
+
+Theorem C19_accepts_wellformed : forall isReq lim fs,
+  WF isReq lim fs -> (forall f, In f fs -> is_cl f -> dec_value (fvalue f) < 2 ^ 63) ->
+  parseHeaders isReq lim fs false = inr (hdr_of fs).
+Proof. exact parseHeaders_accepts_WF. Qed.
+Print Assumptions C19_accepts_wellformed.
+
+(** The byte-wise model of the lower-case test is a sound abstraction of Go's UTF-8 aware one:
+    a name with a byte >= 0x80 can pass neither the token test nor the pseudo-header switch, so
+    the section is malformed whichever test fires first. *)
+Theorem C19_nonascii_names : forall n b,
+  In b n -> 128 <= b -> lower_ok n = false /\ token_ok n = false /\ pseudo_slot n = None.
+Proof. exact nonascii_name_never_valid. Qed.
+Print Assumptions C19_nonascii_names.
 
 (** ... with the error class the callers turn into the code RFC 9114 prescribes:
     ETooLarge (431 / H3_EXCESSIVE_LOAD) only if the section really exceeds the limit,
